@@ -92,6 +92,17 @@ def run(ctx):
                         except (TypeError, ValueError):
                             continue
                         yield ("c04", dict(base, route="kw", P=None, kwargs=kw, _k="kw:%d:%s:%s" % (li, pat, P0.hex()[:40])))
+        # variable-length text attributes given as BYTES (character attributes take str or bytes): whatever the bytes are - ISO 8859-1
+        # text, truncated or overlong UTF-8, encoded surrogates, arbitrary bytes - the frame built must be accepted again
+        for li, l in enumerate(lays):
+            chs = [e for e in l["lay"] if e["k"] == "f" and e["t"] == "CH"]
+            if len(chs) != 1 or l["c"] != 1:
+                continue
+            nm = names_for(defs, l["cls"], l["id"], l["bfix"])
+            fixes = {f["n"]: f["v"] for f in l["fixes"]}
+            for ti, txt in enumerate((b"Antenna temp 25\xb0C", b"\xff\xfe", b"abc\xc3", b"\xed\xa0\x80", b"\xc0\x80", b"\x80", b"caf\xe9 \xb5b", rng.randbytes(24), b"plain", b"")):
+                yield ("c04", {"m": l["m"], "cls": l["cls"], "id": l["id"], "name": l["name"], "names": nm, "route": "kw", "P": None,
+                               "kwargs": dict(fixes, **{chs[0]["n"]: {"hex": txt.hex()}}), "_k": "chbytes:%d:%d" % (li, ti)})
         # messages obtained by a lenient (VALNONE) parse of a damaged frame (checksum byte or payload byte substituted): "however a
         # message is obtained", what it serialises to is a well-formed frame
         from ..common import frame as _frame
